@@ -605,6 +605,15 @@ def normalize(prog, pinned=None):
             if getattr(B, "inlined", None):
                 if _devirtualize(B):
                     _reset(B)
+                # `helper(|x| body)` / `helper(Type::method)`: once the helper is inlined, its `f(arg)` is an application of a
+                # closure (or function item) the caller wrote - apply it, so that the calls inside are seen where they happen
+                guard_ = 0
+                while guard_ < 8 and _apply_fn_values(B, prog, pinned):
+                    guard_ += 1
+                    _reset(B)
+                    process(B, 0, frozenset())
+                    if _devirtualize(B):
+                        _reset(B)
                 if _forward_returns(B):
                     _reset(B)
     prog._callers = None
@@ -716,6 +725,77 @@ def _forward_returns(B):
                 st["rv"]["op"]["k"] = "move"
                 del st["rv"]["op"]["was_move"]
     return changed
+
+
+def _single_def_chain(B, l, defs):
+    """Follow moves/copies/refs of bare locals from local `l` to the rvalue that defines the value (None if ambiguous)."""
+    for _ in range(10):
+        ds = defs.get(l, [])
+        if len(ds) != 1 or ds[0] is None:
+            return None
+        rv = ds[0]
+        if rv["k"] == "use" and rv["op"].get("k") in ("move", "copy") and isinstance(rv["op"].get("pl"), int):
+            l = rv["op"]["pl"]
+            continue
+        if rv["k"] == "ref" and isinstance(rv.get("pl"), int):
+            l = rv["pl"]
+            continue
+        if rv["k"] == "use" and rv["op"].get("k") == "const":
+            return rv["op"]
+        return rv
+    return None
+
+
+def _apply_fn_values(B, prog, pinned):
+    """One application per call: rewrite the first `FnOnce::call_once(f, (a, b, ..))` (or call_mut / call) whose `f` is - by a
+    single-definition chain inside B - a function item (→ direct call `f(a, b, ..)`) or a closure written in the new code
+    (→ its body inlined with the captured environment as first argument).  Returns True if something changed."""
+    defs = {}
+    for bl in B.blocks:
+        for s_ in bl["s"]:
+            if s_["k"] == "assign" and isinstance(s_["lhs"], int):
+                defs.setdefault(s_["lhs"], []).append(s_["rv"])
+        t = bl["t"]
+        if t["k"] == "call" and t.get("dest") is not None:
+            d = t["dest"]
+            d = d if isinstance(d, int) else (d.get("l") if isinstance(d, dict) and not d.get("p") else None)
+            if d is not None:
+                defs.setdefault(d, []).append(None)
+    for bb, bl in enumerate(B.blocks):
+        t = bl["t"]
+        if t["k"] != "call" or bl.get("cleanup"):
+            continue
+        f = t.get("func") or {}
+        fn = strip_generics(f.get("fn")) if f.get("fn") else ""
+        if not fn.endswith(("ops::function::FnOnce::call_once", "ops::function::FnMut::call_mut", "ops::function::Fn::call")) or len(t.get("args", [])) != 2:
+            continue
+        a0, a1 = t["args"]
+        if a0.get("k") not in ("move", "copy") or not isinstance(a0.get("pl"), int) or a1.get("k") not in ("move", "copy") or not isinstance(a1.get("pl"), int):
+            continue
+        tup = _single_def_chain(B, a1["pl"], defs)
+        if not (isinstance(tup, dict) and tup.get("k") == "agg" and tup.get("ak") == "tuple"):
+            continue
+        callee = _single_def_chain(B, a0["pl"], defs)
+        if not isinstance(callee, dict):
+            continue
+        if callee.get("k") == "const" and callee.get("fn"):
+            t["func"] = {k_: v_ for k_, v_ in callee.items() if k_ in ("k", "fn", "inst", "ga", "res", "trait", "self_ty", "local", "res_local", "ty")}
+            t["args"] = list(tup["ops"])
+            return True
+        if callee.get("k") == "agg" and callee.get("ak") == "closure":
+            path = strip_generics(callee.get("body"))
+            F = prog.bodies.get(path)
+            if F is None or path in pinned or getattr(F, "coroutine", False):
+                continue
+            if F.argc != 1 + len(tup["ops"]):
+                continue
+            saved = t["args"]
+            t["args"] = [a0] + list(tup["ops"])
+            if _inline_sync(B, bb, F):
+                B.inlined.append(F.path)
+                return True
+            t["args"] = saved
+    return False
 
 
 def _devirtualize(B):
